@@ -30,8 +30,14 @@ def main():
         if not os.path.exists(path) or pid in NOT_APPLICABLE:
             na.append({"property_id": pid, "reason": NOT_APPLICABLE.get(pid, DEFAULT_NA)})
             continue
-        mod = importlib.import_module("obl." + pid)
-        meta = mod.META
+        try:
+            mod = importlib.import_module("obl." + pid)
+            meta = mod.META
+            assert "level_text" in meta and "level_note" in meta and mod.OBLIGATIONS
+        except Exception as e:  # module still under construction
+            sys.stderr.write("skipping %s: %r\n" % (pid, e))
+            na.append({"property_id": pid, "reason": DEFAULT_NA})
+            continue
         nq = sum(1 for o in mod.OBLIGATIONS if o.tier == "quick")
         nt = len(mod.OBLIGATIONS)
         checks.append({
